@@ -97,8 +97,8 @@ class Check:
 
     # ------------------------------------------------------------ TLC
     def _tlc(self, module, cfg, env, workers, timeout, heap, tag, extra=()):
-        md = self.path("md-%s-%d" % (tag, len(os.listdir(self.work))))
-        cmd = ["timeout", str(timeout), "java", "-XX:+UseParallelGC", "-Xmx" + heap, "-Xss256m",
+        md = tempfile.mkdtemp(prefix="md-%s-" % tag, dir=self.work)
+        cmd = ["timeout", str(timeout), "java", "-Djava.io.tmpdir=" + self.work, "-XX:+UseParallelGC", "-Xmx" + heap, "-Xss256m",
                "-cp", JAR, "tlc2.TLC", "-workers", str(workers), "-metadir", md,
                "-config", cfg, "-lncheck", "final"] + list(extra) + [module]
         e = dict(os.environ)
@@ -137,6 +137,37 @@ class Check:
         self.mc_runs.append({"module": module, "generated": n, "env": {k: str(v) for k, v in env.items() if k != "VOUT"}})
         return n
 
+    def gen_parallel(self, jobs, timeout=1500, heap="4g"):
+        """jobs: list of (module, env) with env["VOUT"] set.  Runs the TLC generators
+        concurrently (one JVM each).  Returns total GEN count."""
+        def one(job):
+            module, env = job
+            rc, out = self._tlc(module + ".tla", module + ".cfg", env, 1, timeout, heap, "gen")
+            if "No error has been found" not in out:
+                raise Inconclusive("generator %s %s failed (rc=%d):\n%s" % (module, {k: v for k, v in env.items() if k != "VOUT"}, rc, out[-2500:]))
+            m = re.search(r'<<\s*"GEN",\s*(\d+)', out)
+            return int(m.group(1)) if m else 0
+        with ThreadPoolExecutor(max_workers=NCPU) as ex:
+            ns = list(ex.map(one, jobs))
+        self.mc_runs.append({"generators": len(jobs), "module": jobs[0][0] if jobs else "", "lines": sum(ns)})
+        return sum(ns)
+
+    def harness_parallel(self, driver, pairs, args=(), timeout=1800):
+        """pairs: list of (inp, out). Runs the harness on each input concurrently."""
+        def one(pr):
+            return self.harness(driver, pr[1], inp=pr[0], args=args, timeout=timeout)
+        with ThreadPoolExecutor(max_workers=NCPU) as ex:
+            return list(ex.map(one, pairs))
+
+    @staticmethod
+    def concat(paths, out):
+        with open(out, "w") as o:
+            for p in paths:
+                if os.path.exists(p):
+                    with open(p) as f:
+                        shutil.copyfileobj(f, o)
+        return out
+
     # ------------------------------------------------------------ trace validation
     def shard(self, events, nshards, header=None, boundary=None, dedupe=True):
         """Split an events file into shard files.  header(ev_dict_or_line) -> True for lines
@@ -165,7 +196,8 @@ class Check:
             if boundary:
                 while j < len(body) and not boundary(body[j]):
                     j += 1
-            p = self.path("shard-%d-%d.ndjson" % (len(os.listdir(self.work)), len(shards)))
+            fd, p = tempfile.mkstemp(prefix="shard-%d-" % len(shards), suffix=".ndjson", dir=self.work)
+            os.close(fd)
             with open(p, "w") as f:
                 f.writelines(hdr)
                 f.writelines(body[i:j])
@@ -218,6 +250,12 @@ class Check:
             self.events += n
         self.nontrivial = self.counts.get("nontrivial", 0)
         return results
+
+    def load_replay(self, path):
+        rec = json.load(open(path))
+        if rec.get("property") != self.pid:
+            raise Inconclusive("replay file is for property %s" % rec.get("property"))
+        return rec
 
     def sample_events(self, events, k=3, pred=None):
         out = []
@@ -272,8 +310,20 @@ class Check:
         kf = self.known_findings()
         outdir = os.path.join(VERIF, "out", self.pid)
         os.makedirs(outdir, exist_ok=True)
+        for f in os.listdir(outdir):
+            if f.startswith("viol-") or f == "all-violations.ndjson":
+                os.remove(os.path.join(outdir, f))
         new, known_hits = [], {}
+        foreign = {}
+        mine = []
         for rec in self.viol:
+            pref = rec["rule"].split(".")[0]
+            if re.match(r"^C\d\d$", pref) and pref != self.pid:
+                foreign[rec["rule"]] = foreign.get(rec["rule"], 0) + 1
+            else:
+                mine.append(rec)
+        self.extra["rules_of_other_properties_rejecting_events"] = foreign
+        for rec in mine:
             hit = next((k for k in kf if self.matches(k, rec)), None)
             if hit:
                 known_hits.setdefault(hit["what"], 0)
@@ -295,6 +345,9 @@ class Check:
             print("VIOLATION property=%s replay=%s rule=%s" % (self.pid, p, rec["rule"]))
         if new:
             print("violations by rule:", seen_rules)
+            with open(os.path.join(outdir, "all-violations.ndjson"), "w") as f:
+                for rec in new[:20000]:
+                    f.write(json.dumps({"rule": rec["rule"], "event": rec["event"]}) + "\n")
         wall = time.time() - self.t0
         cov = {
             "states": self.states, "transitions": self.transitions,
